@@ -148,8 +148,10 @@ def r3_build_model(R) -> None:
                     f'the `{h.label()}` handler of the exec can fall through to the return (returning whatever `Model` is bound)',
                     where=f.where(h), path=f.cfg.describe_path(f.cfg.some_path(h.id, r.id) or []))
         rv = r.ast.value
-        R.check(rv is not None and text(rv) in ("locals_['Model']", 'Model'), q, 'returns-model:' + text(rv), 'returns the class bound by the exec',
-                f'returns `{text(rv)}`', where=f.where(r))
+        ns = text(main[0][1].args[2]) if len(main[0][1].args) > 2 else 'locals_'
+        rvx = f.etext(r.id, rv, stop=(ns,)) if rv is not None else '?'
+        R.check(rv is not None and rvx in (f"{ns}['Model']", 'Model'), q, 'returns-model:' + rvx[:40], 'returns the class bound by the exec',
+                f'returns `{rvx}`', where=f.where(r))
     # CODE
     codes = [n for n in f.cfg.nodes if n.kind == 'stmt' and isinstance(n.ast, ast.Assign) and isinstance(n.ast.targets[0], ast.Attribute)
              and n.ast.targets[0].attr == 'CODE']
@@ -178,6 +180,9 @@ def r4_converter(R) -> None:
     where = f'{f.fi.module.relpath}:{call.lineno}'
     # an empty block becomes `pass`
     joined = eqv
+    if isinstance(eqv, ast.BoolOp) and isinstance(eqv.op, ast.Or) and len(eqv.values) == 2:
+        # `text or default` in value position is `text if text else default`
+        eqv = ast.IfExp(test=eqv.values[0], body=eqv.values[0], orelse=eqv.values[1])
     if isinstance(eqv, ast.IfExp) and text(eqv.test) == text(eqv.body) and is_const(eqv.orelse, '        pass'):
         joined = eqv.body
         R.ok(q, 'an empty equation block becomes `pass`')
